@@ -69,3 +69,30 @@ fn schedule_write_op_with_room_enqueues_once() {
     kani::cover!(inner.calls.get() == 0, "maintenance skipped");
     std::mem::forget(inner);
 }
+
+// ================================================================================================
+// C07 / C11: Cache::invalidate of a key whose insert is still queued (not yet admitted)
+// ================================================================================================
+use crate::sync::base_cache::verif_sync as vs;
+
+#[kani::proof]
+#[kani::unwind(6)]
+#[kani::stub(std::time::Instant::now, vs::now_stub)]
+fn invalidate_of_a_pending_insert_queues_its_removal() {
+    let st = vs::mk_state(&vs::mk_cfg(1, Some(3), false, false, false, 1));
+    let pending = vs::add_pending(&st, 1);            // insert(1) happened, its Upsert is queued
+    let cache: Ca = Cache { base: vs::base_of(st) };
+    assert!(cache.base.write_op_ch.len() == 1);
+    cache.invalidate(&1u8);
+    assert!(!cache.base.contains_key(&1u8), "C07: invalidated key still observable");
+    assert!(cache.base.contains_key(&0u8), "C07: invalidate(k) must not affect other keys");
+    // the Remove must follow the queued Upsert: otherwise maintenance admits an entry that left the map
+    // and its deque nodes pin the key for ever (C11) and entry_count drifts (C10)
+    assert!(cache.base.write_op_ch.len() == 2, "C11,C10,C07: invalidate of a pending entry must queue a Remove behind its Upsert");
+    let first = cache.base.inner.verif_recv_write();
+    let second = cache.base.inner.verif_recv_write();
+    assert!(matches!(first, Some(WriteOp::Upsert { .. })) && matches!(second, Some(WriteOp::Remove(_))), "C11,C07: queue order Upsert then Remove");
+    kani::cover!(true, "end reached");
+    std::mem::forget(first); std::mem::forget(second); std::mem::forget(pending);
+    std::mem::forget(cache);
+}
